@@ -5,6 +5,7 @@ from .sym import (I, B, Val, Loc, scalar, sort_of, lift, fresh_name, pathstr,
 
 
 MAXINT = (1 << 63) - 1
+MAXLEN = 1 << 48   # standing assumption: no slice, string or map has more than 2^48 elements
 
 
 def keyname(key):
@@ -25,6 +26,16 @@ class Event:
         self.frontier = frontier    # frontier term after the event
         self.only_refs = only_refs  # None or {region-prefix: [ref terms]} restricting the havoc
         self.why = why
+
+
+class JoinEvent:
+    """marker in a heap's event list: the states of several arms were merged here"""
+
+    def __init__(self, branches):
+        self.branches = branches   # [(condition, events list of the arm)]
+
+    def match(self, key):
+        return False
 
 
 class Heap:
@@ -52,16 +63,30 @@ class Heap:
     def const(self, tag, key):
         return z3.Const('%s_%s' % (tag, keyname(key)), z3.ArraySort(I, sort_of(self.sorts[key])))
 
-    def base(self, key, upto, alloc0):
+    def base(self, key, upto, alloc0, events=None):
         """term and unknown-memory layers of region `key` just after event index upto-1"""
+        events = self.events if events is None else events
         for j in range(upto - 1, -1, -1):
-            ev = self.events[j]
+            ev = events[j]
+            if isinstance(ev, JoinEvent):
+                # arms with different havoc histories were joined here: the region is the
+                # arm-wise choice of what each history gives
+                terms = []
+                layers = []
+                for (c, evs) in ev.branches:
+                    t, ls = self.base(key, len(evs), alloc0, evs)
+                    terms.append(t)
+                    layers += ls
+                r = terms[-1]
+                for (c, evs), t in zip(reversed(ev.branches[:-1]), reversed(terms[:-1])):
+                    r = z3.If(c, t, r)
+                return r, layers
             if ev.match(key):
                 fresh = self.const('H%d' % ev.id, key)
                 refs = restrict_refs(ev, key)
                 if refs is None:
                     return fresh, [(fresh, ev.frontier)]
-                prev, layers = self.base(key, j, alloc0)
+                prev, layers = self.base(key, j, alloc0, events)
                 t = prev
                 for ref in refs:
                     t = z3.Store(t, ref, z3.Select(fresh, ref))
@@ -83,7 +108,7 @@ class Heap:
 
     def havoc(self, ev, alloc0, opaque=False):
         """apply a havoc event to all materialised regions and remember it for lazy ones"""
-        self.events.append(ev)
+        self.events = self.events + [ev]
         for key in list(self.r.keys()):
             if ev.match(key):
                 fresh = self.const('H%d' % ev.id, key)
@@ -259,7 +284,7 @@ class State:
 
     def slice_facts(self, v):
         b, o, l, c = v.lv[('b',)], v.lv[('o',)], v.lv[('l',)], v.lv[('c',)]
-        self.assume(z3.And(o >= 0, l >= 0, l <= c, b >= 0, o + c <= MAXINT, z3.Implies(b == 0, z3.And(l == 0, c == 0, o == 0))))
+        self.assume(z3.And(o >= 0, l >= 0, l <= c, b >= 0, o + c <= MAXLEN, z3.Implies(b == 0, z3.And(l == 0, c == 0, o == 0))))
 
     def leaf_fact(self, t, role, known_old=False):
         kind = role[0]
@@ -270,7 +295,7 @@ class State:
         elif kind == 'ref':
             self.assume(z3.And(t >= 0, t <= (self.alloc0 if known_old else self.frontier)))
         elif kind == 'len':
-            self.assume(z3.And(t >= 0, t <= MAXINT))
+            self.assume(z3.And(t >= 0, t <= MAXLEN))
         elif kind == 'tag':
             self.assume(t >= 0)
 
